@@ -277,7 +277,13 @@ func (g *Gen) adminCommit(st *GovState) *Op {
 
 func (g *Gen) enqueueScenario(st *GovState) {
 	pool := st.Pool()
-	switch g.Rng.Intn(2) {
+	kinds := 2
+	if g.Profile == "c10" {
+		kinds = 3
+	}
+	switch g.Rng.Intn(kinds) {
+	case 2:
+		g.enqueueFeePctScenario(st)
 	case 0:
 		// the same node key is confiscated twice while the first penalty is still uncollected:
 		// register, black-list, epoch change, white-list, register again, black-list, epoch change
@@ -375,6 +381,160 @@ func (g *Gen) enqueueScenario(st *GovState) {
 		g.queue = append(g.queue, auth(2+uint64(g.Rng.Intn(3))), g.adminCommit, auth(1+uint64(g.Rng.Intn(3))), unauth)
 		g.Scenarios["unauthorize-over-new"]++
 	}
+}
+
+// enqueueFeePctScenario: fee percentages outside 0..100 on a node that has an authorizer, followed through
+// the two-epoch delay of the setting (T2 -> T1 -> T) and one epoch more:
+// (changeMaxAuthorization,) authorizeForPeer by a staker, setFeePercentage with stakeCost / peerCost / both
+// out of range, 4 x (ONG income, admin commitDpos), withdrawFee by the owner and by the staker.  Whatever the
+// three calls answered, the C10 oracles judge every settlement that follows.
+func (g *Gen) enqueueFeePctScenario(st *GovState) {
+	const name = "out-of-range-fee-percentage"
+	pool := st.Pool()
+	min := uint64(st.MinAuthorizePos())
+	if min == 0 {
+		min = 1
+	}
+	limitOf := func(st *GovState, p *gov.PeerPoolItem) uint64 {
+		lim := uint64(20) * p.InitPos
+		if st.Param != nil {
+			lim = uint64(st.Param.PosLimit) * p.InitPos
+		}
+		if lim > 4_000_000_000 {
+			lim = 4_000_000_000
+		}
+		return lim
+	}
+	// an active node whose owner has a key and that either has authorizers already or has room for one;
+	// consensus nodes first (they always take part in the split)
+	usable := func(p *gov.PeerPoolItem) bool {
+		return active(p) && g.actorOf(p.Address) != nil && (p.TotalPos > 0 || limitOf(st, p) >= min)
+	}
+	l := g.peersWith(st, func(p *gov.PeerPoolItem) bool { return usable(p) && p.Status == gov.ConsensusStatus })
+	if len(l) == 0 || g.Rng.Chance(25) {
+		l = g.peersWith(st, usable)
+	}
+	if len(l) == 0 {
+		return
+	}
+	pk := l[g.Rng.Intn(len(l))]
+	owner := g.actorOf(pool[pk].Address)
+	var who *Actor
+	for tries := 0; tries < 8 && (who == nil || who == owner); tries++ {
+		who = g.pick(g.W.Stakers)
+	}
+	if who == nil || who == owner {
+		return
+	}
+	tag := " (scenario " + name + ")"
+	alive := func(st *GovState) *gov.PeerPoolItem {
+		if p, ok := st.Pool()[pk]; ok && active(p) && p.Address == owner.Addr() {
+			return p
+		}
+		return nil
+	}
+	changeMax := func(st *GovState) *Op {
+		p := alive(st)
+		if p == nil || st.MaxAuthorize(pk) >= p.TotalPos+min {
+			return nil
+		}
+		max := limitOf(st, p)
+		prm := &gov.ChangeMaxAuthorizationParam{PeerPubkey: pk, Address: owner.Addr(), MaxAuthorize: uint32(max)}
+		return g.govOp(gov.CHANGE_MAX_AUTHORIZATION, "valid", fmt.Sprintf("%s owner=%s max=%d%s", g.W.NodeName(pk), owner.Name, max, tag), prm, owner)
+	}
+	auth := func(st *GovState) *Op {
+		p := alive(st)
+		if p == nil {
+			return nil
+		}
+		lim := limitOf(st, p)
+		if m := st.MaxAuthorize(pk); m < lim {
+			lim = m
+		}
+		if p.TotalPos+min > lim {
+			return nil // no room: the scenario goes on with the authorizers the node has (if any)
+		}
+		units := (lim - p.TotalPos) / min
+		if units > 20 {
+			units = 20
+		}
+		amt := min * uint64(1+g.Rng.Intn(int(units)))
+		if amt > 4_000_000_000 {
+			amt = min
+		}
+		prm := &gov.AuthorizeForPeerParam{Address: who.Addr(), PeerPubkeyList: []string{pk}, PosList: []uint32{uint32(amt)}}
+		op := g.govOp(gov.AUTHORIZE_FOR_PEER, "valid", fmt.Sprintf("%s -> %s [%d]%s", who.Name, g.W.NodeName(pk), amt, tag), prm, who)
+		op.Addr, op.Peers, op.Amounts = who.Addr(), []string{pk}, []uint32{uint32(amt)}
+		g.Scenarios[name+"/authorize_issued"]++
+		return op
+	}
+	over := func() uint32 {
+		switch g.Rng.Intn(8) {
+		case 0:
+			return 101 // the in-storage sentinel of stakeCost 0
+		case 1:
+			return 256 + uint32(g.Rng.U64()%4_294_967_040) // up to 2^32-1
+		default:
+			return 102 + uint32(g.Rng.Intn(154)) // 102..255
+		}
+	}
+	setPct := func(field string) func(st *GovState) *Op {
+		return func(st *GovState) *Op {
+			if alive(st) == nil {
+				return nil
+			}
+			pc, sc := uint32(g.Rng.Intn(101)), uint32(g.Rng.Intn(101))
+			switch field {
+			case "stakeCost":
+				sc = over()
+			case "peerCost":
+				pc = over()
+			default:
+				pc, sc = over(), over()
+			}
+			if p := alive(st); p.TotalPos > 0 {
+				g.Scenarios[name+"/call_on_node_with_authorizers/"+field]++
+			}
+			g.Scenarios[name+"/call_issued/"+field]++
+			return g.govOp(gov.SET_FEE_PERCENTAGE, "over100", fmt.Sprintf("%s by %s peerCost=%d stakeCost=%d%s", g.W.NodeName(pk), owner.Name, pc, sc, tag),
+				&gov.SetFeePercentageParam{PeerPubkey: pk, Address: owner.Addr(), PeerCost: pc, StakeCost: sc}, owner)
+		}
+	}
+	income := func(st *GovState) *Op {
+		op := g.opIncome(st)
+		op.Desc += tag
+		return op
+	}
+	nCommit := 0
+	commit := func(st *GovState) *Op {
+		nCommit++
+		if p := alive(st); p != nil && p.TotalPos > 0 && nCommit >= 3 {
+			// the settlement that would use a setting made before the first commit of the scenario
+			g.Scenarios[name+"/settlement_3+_with_authorizers_on_node"]++
+		}
+		if a := st.Attr[pk]; a != nil && (a.TStakeCost > 101 || a.TPeerCost > 100) {
+			g.Scenarios[name+"/settlement_with_out_of_range_cost_in_force"]++ // only ever on a tree that accepted the call
+		}
+		return g.adminCommit(st)
+	}
+	wfee := func(a *Actor) func(st *GovState) *Op {
+		return func(st *GovState) *Op {
+			variant := "valid"
+			if st.FeeAddr[a.Addr()] == 0 {
+				variant = "nothingCredited"
+			}
+			if g.Height < gov.NEW_VERSION_BLOCK {
+				variant = "heightGate"
+			}
+			op := g.govOp(gov.WITHDRAW_FEE, variant, a.Name+tag, &gov.WithdrawFeeParam{Address: a.Addr()}, a)
+			op.Addr = a.Addr()
+			g.Scenarios[name+"/withdrawFee_issued"]++
+			return op
+		}
+	}
+	g.queue = append(g.queue, changeMax, auth, setPct("stakeCost"), setPct("peerCost"), setPct("both"),
+		income, commit, income, commit, income, commit, income, commit, wfee(owner), wfee(who))
+	g.Scenarios[name]++
 }
 
 // ---- epoch change
@@ -1017,7 +1177,12 @@ func (g *Gen) opSetFeePct(st *GovState) *Op {
 	case 2:
 		pc, sc = 0, 100
 	case 3:
-		variant, sc = "over100", 101
+		// stakeCost alone out of range (101 is the in-storage sentinel of 0; 102.. would wrap 100-stakeCost);
+		// derived from the two draws above so that the random stream is the same as before
+		variant, sc = "over100", 101+(sc*101+pc)%155
+		if pc%8 == 0 {
+			sc = 4_294_967_295 - sc
+		}
 	case 4:
 		variant, pc = "over100", 1000
 	case 5:
